@@ -148,6 +148,10 @@ type Raft struct {
 	// A channel used to respond to membership change requests.
 	configurationResponseCh chan Result[Configuration]
 
+	// The log index of the configuration that the pending membership
+	// change request, if any, is waiting for.
+	configurationResponseIndex uint64
+
 	// Maps ID to the state of the other nodes in the cluster.
 	// Maintained by the leader.
 	followers map[string]*follower
@@ -611,6 +615,10 @@ func (r *Raft) AddServer(
 	r.configuration = &configuration
 	r.followers[id] = &follower{nextIndex: 1}
 
+	// The future will be resolved once the configuration is applied.
+	r.configurationResponseCh = configurationFuture.responseCh
+	r.configurationResponseIndex = configuration.Index
+
 	r.sendAppendEntriesToPeers()
 
 	r.logger.Debugf(
@@ -670,6 +678,10 @@ func (r *Raft) RemoveServer(id string, timeout time.Duration) Future[Configurati
 
 	// Add the configuration to the log.
 	r.appendConfiguration(&configuration)
+
+	// The future will be resolved once the configuration is applied.
+	r.configurationResponseCh = configurationFuture.responseCh
+	r.configurationResponseIndex = configuration.Index
 
 	r.sendAppendEntriesToPeers()
 
@@ -1765,7 +1777,10 @@ func (r *Raft) applyLoop() {
 			case NoOpEntry:
 			case ConfigurationEntry:
 				r.applyConfiguration(entry.Data)
-				respond(r.configurationResponseCh, *r.configuration, nil)
+				if r.configurationResponseCh != nil && r.configurationResponseIndex == entry.Index {
+					respond(r.configurationResponseCh, r.configuration.Clone(), nil)
+					r.configurationResponseCh = nil
+				}
 			case OperationEntry:
 				responseCh := r.operationManager.pendingReplicated[entry.Index]
 				delete(r.operationManager.pendingReplicated, entry.Index)
@@ -1920,6 +1935,12 @@ func (r *Raft) becomeFollower(leaderID string, term uint64) {
 	// Cancel any pending operations.
 	r.operationManager.notifyLostLeaderShip(r.id, r.leaderID)
 	r.operationManager = newOperationManager(r.options.leaseDuration)
+
+	// Cancel any pending membership change request.
+	if r.configurationResponseCh != nil {
+		respond(r.configurationResponseCh, Configuration{}, ErrNotLeader)
+		r.configurationResponseCh = nil
+	}
 
 	r.logger.Infof("entered the follower state: term = %d", r.currentTerm)
 }
